@@ -210,9 +210,15 @@ func VerifH_C14_import() {
 	// store-level operations (C08): the filter chain must never be ahead of
 	// the block chain at any of them (unless it already was before)
 	aheadAtSomeInstant := false
+	unusableAtSomeInstant := false
 	watch := func() {
 		if len(fs.hashes) > len(bs.hdrs) && len(fs.hashes) > len(preF) {
 			aheadAtSomeInstant = true
+		}
+		// a restart at this instant reopens the filter store through the block
+		// hash recorded with its tip entry
+		if len(fs.hashes) <= len(bs.hdrs) && !fs.usable(bs, len(fs.hashes) > len(preF)) {
+			unusableAtSomeInstant = true
 		}
 	}
 	bs.onMutate, fs.onMutate = watch, watch
@@ -238,6 +244,7 @@ func VerifH_C14_import() {
 	blkSrc.onGet, fltSrc.onGet = nil, nil
 	bs.onMutate, fs.onMutate = nil, nil
 	vpAssert(!aheadAtSomeInstant, "filter-store-never-grows-ahead-of-block-store-at-any-instant")
+	vpAssert(!unusableAtSomeInstant, "filter-store-tip-names-its-block-at-every-instant")
 	ctl.failAt = 0
 
 	fileEnd := start + count - 1
